@@ -4,11 +4,13 @@ import json
 PLAN = {
     'C04': ['harness.c04_roundtrip'],
     'C05': ['harness.c04_roundtrip'],
+    'C06': ['harness.c06_decoder'],
     'C08': ['harness.c08_validators'],
 }
 
 NEEDS_FIXTURES = {
     'harness.c04_roundtrip': True,
+    'harness.c06_decoder': True,
 }
 
 
